@@ -20,6 +20,9 @@
      pd i              poll i runs until it returns or blocks      -> N | E | B.. | W
      wr i | pr i       result of worker / poll i so far
      hz                was any step so far hazardous (Push.hazard)? -> 0 | 1
+   A first token F selects the variant with the repaired message() (Push.init_fixed): there the
+   timer of a waiting poll only moves it on; it then withdraws its responder (and returns {}) or,
+   when a publisher holds the responder, waits for the answer.
    After every high-level token the heartbeats that were spawned register their signal (one step).
    The line ends with the per-cache summary:  | c<k>=<id>/<topic> acc=.. del=.. live=.. cached=..
    batch = t:m.m.m;t:m   sorted by topic *)
@@ -99,6 +102,7 @@ let poll_state i =
   match (poll i).Push.ppc with
   | Push.LDone r -> `Done r
   | Push.LWait -> `Wait
+  | Push.LTimedOut -> `TimedOut
   | _ -> `Run
 
 let rec run_poll i fuel =
@@ -106,6 +110,10 @@ let rec run_poll i fuel =
   match poll_state i with
   | `Done r -> pres_str r
   | `Wait -> if do_event (Push.EPoll (nat i, nat 0)) then run_poll i (fuel - 1) else "W"
+  | `TimedOut ->
+      if do_event (Push.EPoll (nat i, nat 0)) then run_poll i (fuel - 1)        (* withdraw *)
+      else if do_event (Push.EPoll (nat i, nat 1)) then run_poll i (fuel - 1)   (* the answer has arrived *)
+      else "W"
   | `Run -> if do_event (Push.EPoll (nat i, nat 0)) then run_poll i (fuel - 1)
             else failwith ("c19: poll " ^ string_of_int i ^ " blocked")
 
@@ -134,7 +142,9 @@ let summary () =
     s.Push.caches)
 
 let run line =
-  st := Push.init; hazard_seen := false;
+  let toks0 = split_ws line in
+  let fixed, toks0 = (match toks0 with "F" :: r -> true, r | l -> false, l) in
+  st := (if fixed then Push.init_fixed else Push.init); hazard_seen := false;
   let out = Buffer.create 256 in
   let emit s = Buffer.add_string out s; Buffer.add_char out ' ' in
   let n x = nat (int_of_string x) in
@@ -153,7 +163,10 @@ let run line =
         go r
     | "T" :: id :: r ->
         let i = active_poll_of (int_of_string id) in
-        (if i >= 0 && poll_state i = `Wait && do_event (Push.EPoll (nat i, nat 1)) then (settle_hb (); emit "E")
+        (if i >= 0 && poll_state i = `Wait && do_event (Push.EPoll (nat i, nat 1)) then
+           (if poll_state i = `TimedOut then
+              (if do_event (Push.EPoll (nat i, nat 0)) then (settle_hb (); emit "E") else emit "dis")
+            else (settle_hb (); emit "E"))
          else emit "dis");
         go r
     | "R" :: id :: r ->
@@ -196,10 +209,10 @@ let run line =
     | "pd" :: i :: r -> emit (run_poll (int_of_string i) 10000); go r
     | "wr" :: i :: r -> emit (work_result (int_of_string i)); go r
     | "pr" :: i :: r ->
-        emit (match poll_state (int_of_string i) with `Done x -> pres_str x | `Wait -> "W" | `Run -> "run"); go r
+        emit (match poll_state (int_of_string i) with `Done x -> pres_str x | `Wait | `TimedOut -> "W" | `Run -> "run"); go r
     | "hz" :: r -> emit (if !hazard_seen then "1" else "0"); go r
     | tok :: _ -> failwith ("c19: bad token " ^ tok) in
-  go (split_ws line);
+  go toks0;
   Buffer.add_string out ("| hz=" ^ (if !hazard_seen then "1" else "0") ^ " " ^ summary ());
   String.trim (Buffer.contents out)
 
